@@ -1047,10 +1047,14 @@ def run_symbolic(h, tier="quick", stubs=None):
     }
 
 
+LAST_REAL_ERRORS = []
+
+
 def run_concrete(h, values=None, seed=0, n=1):
     """Run the harness natively on the real code.  Returns (ran, failures:list[(name, inputs)])."""
     rng = random.Random(seed)
     ran, fails, errors = 0, [], []
+    del LAST_REAL_ERRORS[:]
     for i in range(n):
         vc = ConcVC(h, values if i == 0 else None, rng) if values is not None else ConcVC(h, None, rng)
         try:
@@ -1061,6 +1065,12 @@ def run_concrete(h, values=None, seed=0, n=1):
             continue
         except Exception as e:  # real code raised outside what the contract allows
             errors.append((repr(e), dict(vc.inputs)))
+            tb = e.__traceback__
+            while tb is not None and tb.tb_next is not None:
+                tb = tb.tb_next
+            fn = tb.tb_frame.f_code.co_filename if tb is not None else ""
+            if "/resonaate/" in fn and "/contracts/" not in fn and "/pyvc/" not in fn and not isinstance(e, AssertionError):
+                LAST_REAL_ERRORS.append((repr(e), dict(vc.inputs)))  # raised BY the real code (innermost frame in the package): a concrete input for a refuted '.noraise'
             continue
         finally:
             vc._uninstall()
